@@ -1231,11 +1231,18 @@ impl World {
         // the per-node decision tracking of this pass also feeds the C09 expectations (a node whose
         // decision history is not inferable may or may not report a change), so it always runs;
         // its own verdicts are only kept when C06 is being judged
+        let bind_ran: HashSet<NodeId> = events
+            .iter()
+            .filter_map(|e| match e {
+                Event::BindRun { bind: NodeKey::Top(n), .. } => Some(*n),
+                _ => None,
+            })
+            .collect();
         if self.cfg.c06 {
-            self.check_c06(k, &cone_union, &cone_end, &refs, &invokes, &folds, &cutoffs, &dirty_at_start, &mut problems);
+            self.check_c06(k, &cone_union, &cone_end, &refs, &invokes, &folds, &cutoffs, &dirty_at_start, &bind_ran, &mut problems);
         } else {
             let mut discarded = vec![];
-            self.check_c06(k, &cone_union, &cone_end, &refs, &invokes, &folds, &cutoffs, &dirty_at_start, &mut discarded);
+            self.check_c06(k, &cone_union, &cone_end, &refs, &invokes, &folds, &cutoffs, &dirty_at_start, &bind_ran, &mut discarded);
         }
         // remember what the engine holds for each top-level node
         for n in 0..self.model.nodes.len() {
@@ -1472,6 +1479,7 @@ impl World {
         folds: &HashMap<NodeKey, Vec<(i64, i64, i64)>>,
         cutoffs: &HashMap<NodeKey, Vec<(Val, Val, bool)>>,
         dirty: &[u8],
+        bind_ran: &HashSet<NodeId>,
         problems: &mut Vec<(&'static str, String)>,
     ) {
         // Phase 1: for every top-level node decide whether it produced an unsuppressed result in
@@ -1582,6 +1590,18 @@ impl World {
                         }
                     }
                     Kind::Const(_) | Kind::Fold(..) => Some(false),
+                    // a bind whose closure re-ran in this round and which is needed and valid at
+                    // the end has been recomputed (its lhs-change node always reports a change),
+                    // also when the closure handed back the same node with the same value: what
+                    // its dependants see is then decided by the cutoff of the bind node alone
+                    Kind::Bind(..) if bind_ran.contains(&n) && in_end && !self.lossy && matches!((tr.cached, refs[n]), (Some(Some(_)), Some(_))) => {
+                        let (c, now) = (tr.cached.unwrap().unwrap(), refs[n].unwrap());
+                        if info.cutoff.logs() {
+                            logged.and_then(|x| x.last()).map(|x| !x.2)
+                        } else {
+                            Some(!info.cutoff.decide(c, now))
+                        }
+                    }
                     // internal nodes without a user function: known only through the values
                     _ => {
                         if !in_end && !in_start {
